@@ -1241,3 +1241,84 @@ func (m *Model) assumedValue(v ssa.Value) (bool, bool) {
 	}
 	return av == l.Truth, true
 }
+
+// controlConds: the branch conditions of at's function that decide whether `at` executes: the
+// conditions of every If from one successor of which `at` is reachable while from the other it
+// is not, or from both of which it is reachable but only one of which can still avoid it.
+// Unlike the must-guards of a block this also sees conditions that are combined by || (none of
+// which holds on every path). The literals are returned with Truth = true (polarity is not meaningful).
+func (m *Model) controlConds(at ssa.Instruction) []Lit {
+	f := at.Parent()
+	target := at.Block()
+	reach := func(from *ssa.BasicBlock) bool {
+		seen := map[*ssa.BasicBlock]bool{}
+		var walk func(b *ssa.BasicBlock) bool
+		walk = func(b *ssa.BasicBlock) bool {
+			if b == target {
+				return true
+			}
+			if seen[b] {
+				return false
+			}
+			seen[b] = true
+			for i, s := range b.Succs {
+				if !deadEdge(b, i) && walk(s) {
+					return true
+				}
+			}
+			return false
+		}
+		return walk(from)
+	}
+	avoid := func(from *ssa.BasicBlock) bool {
+		// a Return (or panic) is reachable without entering the target block
+		seen := map[*ssa.BasicBlock]bool{}
+		var walk func(b *ssa.BasicBlock) bool
+		walk = func(b *ssa.BasicBlock) bool {
+			if b == target || seen[b] {
+				return false
+			}
+			seen[b] = true
+			if len(b.Succs) == 0 {
+				return true
+			}
+			for i, s := range b.Succs {
+				if !deadEdge(b, i) && walk(s) {
+					return true
+				}
+			}
+			return false
+		}
+		return walk(from)
+	}
+	var out []Lit
+	seenLit := map[string]bool{}
+	for _, b := range liveBlocks(f) {
+		ifi, ok := b.Instrs[len(b.Instrs)-1].(*ssa.If)
+		if !ok || len(b.Succs) != 2 || b.Succs[0] == b.Succs[1] || b == target && instrIndex(at) < len(b.Instrs)-1 {
+			continue
+		}
+		if deadEdge(b, 0) || deadEdge(b, 1) {
+			continue
+		}
+		r0, r1 := reach(b.Succs[0]), reach(b.Succs[1])
+		if !r0 && !r1 {
+			continue
+		}
+		decides := r0 != r1
+		if !decides {
+			decides = avoid(b.Succs[0]) != avoid(b.Succs[1])
+		}
+		if !decides {
+			continue
+		}
+		l := m.litOf(ifi.Cond, true, ifi)
+		l.Truth = true
+		if !seenLit[l.S.String()] {
+			seenLit[l.S.String()] = true
+			out = append(out, l)
+		}
+	}
+	sort.Slice(out, func(i, j int) bool { return out[i].S.String() < out[j].S.String() })
+	return out
+}
